@@ -1,6 +1,6 @@
 (** C18 — non-vacuity: the model runs on literals (results = what the x87 returned for the same operands),
     and every hypothesis of every property theorem is met by a concrete instance. *)
-From Coq Require Import ZArith Reals Bool Floats.SpecFloat Lia Lra.
+From Coq Require Import ZArith Reals Bool List Floats.SpecFloat Lia Lra.
 From Flocq Require Import Core.Zaux Core.Raux Core.Defs Core.Float_prop Core.Generic_fmt Core.FLT
   Core.Round_NE IEEE754.BinarySingleNaN.
 From RlibV Require Import C18.Model C18.Corr C18.Spec C18.ProofsConv C18.ProofsArith C18.Properties.
@@ -182,12 +182,29 @@ Example ex_valid80_neg : valid80 (neg80 (widen a01)).
 Proof. apply (c18_neg (widen a01)). exact v_wa. Qed.
 
 (** ** the specification checker: an accepted case (the executor's line for 0.1 and 1/3) and what follows from it *)
+(** the group [OExt] of that line: m = x*y+x, p = x*y, q = x/y, s = x+y all need more than 53 bits, so each differs
+    from its rounding through binary64 *)
+Definition ext01 : extobs :=
+  (mkExt 4593971859893063953 (16380, 9838263505978427392) (16378, 9838263505978427392) (16381, 11068046444225732608) (16381, 15987178197214945280)
+          (mkRel false false true true false 3 (16380, 9838263505978427392) (16380, 9838263505978427938))
+          (mkRel true true false false false 1 (16380, 9838263505978427392) (16380, 9838263505978427938))
+          (mkRel false false true true false 3 (16378, 9838263505978427392) (16378, 9838263505978427529))
+          (mkRel true true false false false 1 (16378, 9838263505978427392) (16378, 9838263505978427529))
+          (mkRel true true false false false 1 (16381, 11068046444225732198) (16381, 11068046444225732608))
+          (mkRel false false true true false 3 (16381, 11068046444225732198) (16381, 11068046444225732608))
+          (mkRel true true false false false 1 (16381, 15987178197214944256) (16381, 15987178197214945280))
+          (mkRel false false true true false 3 (16381, 15987178197214944256) (16381, 15987178197214945280))
+          (mkRel false false true true false 3 (16378, 9838263505978427529) (16380, 9838263505978427938))
+          (mkRel true true false false false 1 (16378, 9838263505978427529) (16381, 15987178197214944256))
+          (mkRel false false true true false 3 (16381, 11068046444225732198) (16381, 15987178197214944256))
+          (16380, 9838263505978427938) (16378, 9838263505978427529) (16381, 11068046444225732198) (16381, 15987178197214944256)).
 Definition case01 : case :=
   Case OAll 4591870180066957722 4599676419421066581
     (mkObs (16379, 14757395258967642112) (16381, 12297829382473033728) (16381, 15987178197214944256) (49148, 17216961135462246400) (16378, 9838263505978427529) (16381, 11068046444225732198) (49147, 14757395258967642112) (16380, 9838263505978427938) (16381, 14757395258967642726)
        4591870180066957722 4601477859272014780 13820946776449736157 4584964660638322961 4599075939470750516 4600877379321698714
        true true false false false 1
-       (16379, 14757395258967642112) (16381, 12297829382473033728) (16379, 14757395258967642112)).
+       (16379, 14757395258967642112) (16381, 12297829382473033728) (16379, 14757395258967642112)
+       ext01).
 Example case01_spec : spec_check case01 = true. Proof. vm_compute. reflexivity. Qed.
 Example case01_model : model_check case01 = true. Proof. vm_compute. reflexivity. Qed.
 Example ex_spec_sound_add :
@@ -199,8 +216,87 @@ Proof. apply (c18_spec_check_sound OAll _ _ _ case01_spec). reflexivity. Qed.
 (** a wrong last bit is rejected *)
 Example case01_bad : spec_check (Case OAdd 4591870180066957722 4599676419421066581
   (mkObs (16379, 14757395258967642112) (16381, 12297829382473033728) (16381, 15987178197214944257)
-     (0,0) (0,0) (0,0) (0,0) (0,0) (0,0) 0 4601477859272014780 0 0 0 0 false false false false false 0 (0,0) (0,0) (0,0))) = false.
+     (0,0) (0,0) (0,0) (0,0) (0,0) (0,0) 0 4601477859272014780 0 0 0 0 false false false false false 0 (0,0) (0,0) (0,0) ext01)) = false.
 Proof. vm_compute. reflexivity. Qed.
+
+(** ** relations on operands that are not images of binary64 values (group [OExt]) *)
+(** 1e17 + 1 is exact with 64 bits and rounds to 1e17 in binary64: the two compare as different values *)
+Definition big : spec_float := widen (decode64 4861130398305394688).              (* 1e17 *)
+Definition big1 : spec_float := add80 big (widen (decode64 4607182418800017408)). (* 1e17 + 1 *)
+Example run_ext_rel : (narrow big1, widen (narrow big1)) = (decode64 4861130398305394688, big)
+  /\ (lt80 big big1, le80 big1 big, ge80 big big1, eq80 big1 big, partial_cmp80 big big1, partial_cmp80 big1 big)
+     = (true, false, false, false, Some Lt, Some Gt)
+  /\ (min80 big1 big, max80 big big1) = (big, big1).
+Proof. vm_compute. auto. Qed.
+(** f64::MAX^2 is finite in the extended format (its binary64 rounding is +inf); MIN_POSITIVE^2 is not zero *)
+Example run_ext_range :
+  let mx := widen (decode64 9218868437227405311) in let mn := widen (decode64 4503599627370496) in
+  (lt80 (mul80 mx mx) (widen (narrow (mul80 mx mx))), eq80 (mul80 mx mx) (widen (narrow (mul80 mx mx))),
+   widen (narrow (mul80 mx mx)))
+  = (true, false, S754_infinity false)
+  /\ (gt80 (mul80 mn mn) (widen (narrow (mul80 mn mn))), eq80 (mul80 mn mn) (widen (narrow (mul80 mn mn))),
+      widen (narrow (mul80 mn mn)))
+     = (true, false, S754_zero false).
+Proof. vm_compute. auto. Qed.
+
+(** what [c18_spec_check_sound] gives for the accepted case on the pair (m, n_m), m = x*y + x: the observed
+    relations are those of the model on the two observed raws, which are different values *)
+Example in_m_nm : In ((16380, 9838263505978427938), (16380, 9838263505978427392), x_m_nm ext01)
+                     (ext_pairs (let '(Case _ _ _ o) := case01 in o)).
+Proof. left. reflexivity. Qed.
+Example ex_spec_sound_ext :
+  r_eq (x_m_nm ext01) = eq80 (decode80 (16380, 9838263505978427938)) (decode80 (16380, 9838263505978427392))
+  /\ r_pcmp (x_m_nm ext01)
+     = pcmp_code (partial_cmp80 (decode80 (16380, 9838263505978427938)) (decode80 (16380, 9838263505978427392))).
+Proof.
+  destruct (c18_spec_check_sound OAll _ _ _ case01_spec) as (_ & _ & _ & _ & _ & Hext).
+  destruct (Hext eq_refl) as (Hrel & _). destruct (Hrel _ _ _ in_m_nm) as (_ & _ & _ & _ & _ & _ & He & Hp & _).
+  exact (conj He Hp).
+Qed.
+Example nn_m : decode80 (16380, 9838263505978427938) <> S754_nan. Proof. discriminate. Qed.
+Example nn_nm : decode80 (16380, 9838263505978427392) <> S754_nan. Proof. discriminate. Qed.
+Example ex_spec_sound_ext_min :
+  decode80 (r_min (x_m_nm ext01)) = decode80 (16380, 9838263505978427938)
+  \/ decode80 (r_min (x_m_nm ext01)) = decode80 (16380, 9838263505978427392).
+Proof.
+  destruct (c18_spec_check_sound OAll _ _ _ case01_spec) as (_ & _ & _ & _ & _ & Hext).
+  destruct (Hext eq_refl) as (Hrel & _).
+  destruct (Hrel _ _ _ in_m_nm) as (_ & _ & _ & _ & _ & _ & _ & _ & Hmm).
+  exact (proj1 (proj1 (Hmm nn_m nn_nm))).
+Qed.
+Example in_abs_m : In ((16380, 9838263505978427938), x_am ext01) (ext_abs (let '(Case _ _ _ o) := case01 in o)).
+Proof. left. reflexivity. Qed.
+Example ex_spec_sound_ext_abs : decode80 (x_am ext01) = SFabs (decode80 (16380, 9838263505978427938)).
+Proof.
+  destruct (c18_spec_check_sound OAll _ _ _ case01_spec) as (_ & _ & _ & _ & _ & Hext).
+  destruct (Hext eq_refl) as (_ & Habs & _). exact (Habs _ _ in_abs_m).
+Qed.
+Example in_wid_m : In (x_nmad ext01, x_nm ext01) (ext_widened (let '(Case _ _ _ o) := case01 in o)).
+Proof. left. reflexivity. Qed.
+Example ex_spec_sound_ext_widen : decode80 (x_nm ext01) = widen (narrow (decode80 (16380, 9838263505978427938))).
+Proof.
+  destruct (c18_spec_check_sound OAll _ _ _ case01_spec) as (_ & _ & _ & _ & _ & Hext).
+  destruct (Hext eq_refl) as (_ & _ & Hn & Hw). rewrite (Hw _ _ in_wid_m).
+  change (o_mad _) with (16380, 9838263505978427938) in Hn. now rewrite <- Hn.
+Qed.
+(** the equality computed through binary64 (m == n_m, m <= n_m, partial_cmp = Equal although m > n_m) is rejected
+    by both checks *)
+Definition ext01_bad : extobs :=
+  let e := ext01 in
+  mkExt (x_nmad e) (x_nm e) (x_np e) (x_nq e) (x_ns e)
+    (mkRel false true true true true 2 (r_min (x_m_nm e)) (r_max (x_m_nm e)))
+    (x_nm_m e) (x_p_np e) (x_np_p e) (x_q_nq e) (x_nq_q e) (x_s_ns e) (x_ns_s e) (x_m_p e) (x_p_s e) (x_s_q e)
+    (x_am e) (x_ap e) (x_aq e) (x_as e).
+Definition with_ext (c : case) (e : extobs) : case :=
+  let '(Case _ a b o) := c in
+  Case OExt a b (mkObs (o_wa o) (o_wb o) (o_add o) (o_sub o) (o_mul o) (o_div o) (o_neg o) (o_mad o) (o_chain o)
+                   (o_back o) (o_nadd o) (o_nsub o) (o_nmul o) (o_ndiv o) (o_nchain o)
+                   (o_lt o) (o_le o) (o_gt o) (o_ge o) (o_eq o) (o_pcmp o) (o_min o) (o_max o) (o_abs o) e).
+Example case01_ext_ok : spec_check (with_ext case01 ext01) = true /\ model_check (with_ext case01 ext01) = true.
+Proof. vm_compute. auto. Qed.
+Example case01_ext_bad : spec_check (with_ext case01 ext01_bad) = false
+                         /\ model_check (with_ext case01 ext01_bad) = false.
+Proof. vm_compute. auto. Qed.
 
 (** the integer nearest-even test on 1/3 at 64 bits: 0xAAAAAAAAAAAAAAAB * 2^-65 *)
 Example rne_third : rne_ok 64 16384 1 3 0 (S754_finite false 12297829382473034411 (-65)) = true.
